@@ -281,23 +281,17 @@ def handle_failures(pid, tier, scratch, report, kctx):
                 suffix = ' no-failing-input-found'
         else:
             replay.update(verifier_output=f['verifier_output'])
-            # paired bounded Kani harness on the same real function, for a concrete failing input
-            found = None
-            if f.get('paired_kani'):
-                sub = dict(units=[], harnesses=[], failures=[], undecided=[], samples=[], trusted=[], obligations=0,
-                           discharged=0, bounded=[], bounded_checks=0)
-                sdir = os.path.join(scratch, 'paired')
-                os.makedirs(sdir, exist_ok=True)
-                kc = run_kani_units(pid, 'thorough', sdir, sub, only=f['paired_kani'])
-                for sf in sub['failures']:
-                    pb = ku.playback(kc['xt_dir'], kc['hdir'], sf['fq'], reg.KANI_MODULES[sf['module']]['file'],
-                                     harness_modpath=reg.KANI_MODULES[sf['module']]['modpath'], harness_src_rel=reg.KANI_MODULES[sf['module']]['src'])
-                    if pb['reproduced']:
-                        found = dict(harness=sf['fq'], module=sf['module'], playback_test=pb.get('test_src'), playback_test_name=pb.get('test_name'),
-                                     playback_panic=pb.get('panic'), playback_output=pb.get('output'), failed=sf['fails'])
-                        break
-            if found:
-                replay.update(found, playback_reproduced=True)
+            # Verus gives no counterexample: bounded NATIVE search on the same real function for a concrete failing input
+            udef = reg.VERUS_UNITS.get(f['unit'], {})
+            if udef.get('native_search'):
+                ns = ku.native_search(REPO, scratch, udef['native_search']['src'], udef['native_search']['file'])
+                replay['native_search'] = ns
+                if ns.get('found'):
+                    replay['failing_input'] = ns['found']
+                    replay['playback_reproduced'] = True
+                else:
+                    replay['playback_reproduced'] = False
+                    suffix = ' no-failing-input-found'
             else:
                 replay['playback_reproduced'] = False
                 suffix = ' no-failing-input-found'
@@ -400,6 +394,8 @@ def replay_file(path):
     if not r.get('playback_test') or not r.get('harness'):
         print('replay file carries no concrete input (obligation: %s)' % r['failed_obligations'][0]['obligation'])
         print(r.get('verifier_output', '')[-3000:])
+        if r.get('failing_input'):
+            print('recorded failing input:', r['failing_input'])
         print('re-running the check instead')
         return check_property(pid, r.get('tier', 'quick'), 0)
     scratch = tempfile.mkdtemp(prefix='xt-replay-%s-' % pid, dir=SCRATCH_ROOT)
